@@ -653,3 +653,104 @@ Section CentralityTotal.
     - cbn [bind]. apply (closeness_body_total g lw weighted wf W Hreal).
   Qed.
 End CentralityTotal.
+
+(* ====================================================================================== *)
+(* generators (C16): their arguments are numbers, not graphs *)
+From GV Require Import Model.Classic Model.Gnp Spec.GnpDef Proofs.GnpOk Proofs.GensCreationOk Proofs.GensOk
+     Proofs.GensWF Gen.KarateData.
+
+Section GeneratorsTotal.
+  Local Open Scope Z_scope.
+
+  (* complete_graph(n, directed) for EVERY i32 n (n <= 0: the empty graph): the unwrap of the
+     constructor's Result (classic.rs:40) is never reached with an Err *)
+  Theorem total_complete_graph n dir :
+    exists g, complete_graph n dir = Ok g /\ @WF Z unit Z.eqb Z.ltb g.
+  Proof. exact (proj1 generators_wf_total n dir). Qed.
+
+  (* karate_club_graph(): no argument; the adjacency literal of social.rs is re-extracted on
+     every run (Gen/KarateData.v) *)
+  Theorem total_karate_club_graph :
+    exists g, karate_club_graph karate_rows karate_node_bound = Ok g /\ @WF Z unit Z.eqb Z.ltb g.
+  Proof. exact (proj2 (proj2 generators_wf_total)). Qed.
+
+  Lemma zrange_nonpos n : n <= 0 -> zrange n = [].
+  Proof. intros H. unfold zrange. replace (Z.to_nat n) with O by lia. reflexivity. Qed.
+
+  Lemma gnp_pairs_nonpos n dir gaps : n <= 0 -> gnp_pairs n dir gaps = Ok [].
+  Proof.
+    intros H. unfold gnp_pairs. destruct dir.
+    - assert (E : (0 <? n) = false) by (apply Z.ltb_ge; lia). destruct gaps; cbn [dir_loop]; rewrite E; reflexivity.
+    - assert (E : (1 <? n) = false) by (apply Z.ltb_ge; lia). destruct gaps; cbn [und_loop]; rewrite E; reflexivity.
+  Qed.
+
+  (* fast_gnp_random_graph(n, p, directed, seed) for EVERY i32 n and EVERY f64 p (NaN and the
+     infinities included).  [gaps] is the stream of skips (ln(1-r)/ln(1-p)) as i64 drawn from the
+     seed: non-negative because both logarithms are <= 0; the model's only fuel is the length of
+     the supplied stream (OutOfFuel = "the stream given to the model ended before the loop did",
+     not a hang of the code: the third clause says how long a stream always suffices). *)
+  Theorem total_fast_gnp_random_graph n p dir gaps :
+    - 2147483648 <= n <= i32_max -> Forall (fun k => 0 <= k) gaps ->
+    (~ p_valid p -> fast_gnp_random_graph n p dir gaps = Err InvalidArgument) /\
+    (p_valid p ->
+       (exists g, fast_gnp_random_graph n p dir gaps = Ok g /\ @WF Z unit Z.eqb Z.ltb g) \/
+       fast_gnp_random_graph n p dir gaps = OutOfFuel) /\
+    (p_valid p -> gnp_slots (Z.max 0 n) dir < Z.of_nat (length gaps) ->
+       exists g, fast_gnp_random_graph n p dir gaps = Ok g /\ @WF Z unit Z.eqb Z.ltb g).
+  Proof.
+    intros Hn Hg.
+    assert (HW : forall g, fast_gnp_random_graph n p dir gaps = Ok g -> @WF Z unit Z.eqb Z.ltb g).
+    { intros g H. apply (proj1 (proj2 generators_wf) n p dir gaps g H). }
+    assert (Hneg : n < 0 -> p_valid p -> exists g, fast_gnp_random_graph n p dir gaps = Ok g).
+    { intros Hlt Hp. unfold fast_gnp_random_graph. apply p_valid_check in Hp. rewrite Hp. cbn [negb].
+      unfold gnp_graph, gnp_empty. rewrite (zrange_nonpos n) by lia. cbn [map add_nodes ofold bind].
+      rewrite (gnp_pairs_nonpos n dir gaps) by lia. cbn [bind add_edge_tuples map add_edges]. eauto. }
+    split; [apply gnp_rejects_p|]. split.
+    - intros Hp. destruct (Z_lt_le_dec n 0) as [Hlt|Hge].
+      + left. destruct (Hneg Hlt Hp) as (g & H). exists g. split; [exact H|apply HW; exact H].
+      + assert (Hn' : 0 <= n <= i32_max) by lia.
+        destruct (gnp_pairs_total n dir gaps Hn' Hg) as [E | (l & E & F & N)].
+        * right. unfold fast_gnp_random_graph. pose proof Hp as Hp'. apply p_valid_check in Hp'. rewrite Hp'. cbn [negb].
+          unfold gnp_graph, gnp_empty.
+          destruct (empty_graph_ok (with_create (if dir then specs_directed else specs_undirected)) n) as [g0 E0].
+          rewrite E0. cbn [bind]. rewrite E. reflexivity.
+        * left. destruct (gnp_graph_ok n p dir gaps l ltac:(lia) Hp E F N) as (g & Eg & _).
+          exists g. split; [exact Eg|apply HW; exact Eg].
+    - intros Hp Hs. destruct (Z_lt_le_dec n 0) as [Hlt|Hge].
+      + destruct (Hneg Hlt Hp) as (g & H). exists g. split; [exact H|apply HW; exact H].
+      + rewrite Z.max_r in Hs by lia.
+        exact (proj1 (proj2 generators_wf_total) n p dir gaps (conj Hge (proj2 Hn)) Hp Hg Hs).
+  Qed.
+End GeneratorsTotal.
+
+(* ====================================================================================== *)
+(* GraphML (C14 / C19).  The reader's argument is a string, not a graph: [evs] ranges over every
+   sequence of results quick-xml can hand to the event loop, [parse] over every behaviour of
+   str::parse::<f64>.  The writer model [write_events] is a total function (a list of events,
+   no outcome type: `assert!(writer.write_event(..).is_ok())` writes into a Vec and cannot fail),
+   so its totality is by type; what is stated is that its output is always readable. *)
+From GV Require Import Model.XmlEscape Model.GraphML Spec.GraphMLDef Proofs.EscapeOk Proofs.GraphMLOk
+     Proofs.ReaderTotal Proofs.GraphMLRoundTrip Proofs.GraphMLStateOk.
+
+Section GraphMLTotal.
+  Theorem total_read_graphml_string (parse : bytes -> option weight) (evs : list event) (s : specs) :
+    (exists g, read_events parse evs s = Ok g /\ WF bytes_eqb bytes_ltb g) \/
+    (exists k, read_events parse evs s = Err k /\
+               (k = ReadError \/ k = SelfLoopsFound \/ k = NodeNotFound \/ k = DuplicateEdge)).
+  Proof.
+    destruct (read_events_total parse evs s) as (r & Hr & Hp & Hf).
+    destruct (read_events parse evs s) as [g|k|site|] eqn:E; subst r; try discriminate.
+    - left. exists g. split; [reflexivity|]. apply (read_events_ok_valid parse evs s g E).
+    - right. exists k. split; [reflexivity|]. apply (read_events_error_kinds parse evs s k E).
+  Qed.
+
+  (* write_graphml_string on ANY graph state (coherent or not), then read back with the graph's
+     own specs: a value or an error, never a panic, never out of fuel; on a reachable graph: Ok *)
+  Theorem total_write_graphml_string (fmt : Z -> bytes) (parse : bytes -> option weight) (g : ggraph) :
+    exists evs, write_events fmt g = evs /\
+      is_panic (read_events parse evs (sp g)) = false /\ is_fuel (read_events parse evs (sp g)) = false.
+  Proof.
+    eexists. split; [reflexivity|].
+    destruct (read_events_total parse (write_events fmt g) (sp g)) as (r & <- & Hp & Hf). auto.
+  Qed.
+End GraphMLTotal.
